@@ -102,6 +102,13 @@ impl<'input, I: Iterator<Item = (SyntaxKind, &'input str)>> Parser<'input, I> {
     fn parse(mut self) -> (SyntaxNode, impl Resolver) {
         self.builder.start_node(Root);
         self.parse_add();
+        // Whatever follows the first complete expression is not part of it, but it is still part of the input:
+        // keep it in the tree (as errors) instead of silently dropping it.
+        while self.peek().is_some() {
+            self.builder.start_node(Error);
+            self.bump();
+            self.builder.finish_node();
+        }
         self.builder.finish_node();
 
         let (tree, cache) = self.builder.finish();
